@@ -334,6 +334,31 @@ def constrained_cases_ext():
     out.append(('OCTET STRING (SIZE (1..3) ^ FROM ("ab") | SIZE (6))', sized_alpha,
                 [(tlv(4, b''), False), (tlv(4, b'ab'), True), (tlv(4, b'abc'), False), (tlv(4, b'abab'), False), (tlv(4, b'xyzxyz'), True),
                  (tlv(4, b'x'), False), (tlv(4, b'aaaa'), False)]))
+    # a legacy `sizeSpec` (keyword of subtype(), or class attribute) meeting a subtypeSpec that is a UNION / an EXCLUSION /
+    # an intersection: the size narrows the type further, whatever the shape of what was there
+    def ints(n):
+        return tlv(0x30, b''.join(bytes.fromhex('0201%02x' % (j + 1)) for j in range(n)))
+
+    def ints_set(n):
+        return tlv(0x31, b''.join(bytes.fromhex('0201%02x' % (j + 1)) for j in range(n)))
+    one_or_three = univ.SequenceOf(componentType=univ.Integer()).subtype(
+        subtypeSpec=C_.ConstraintsUnion(C_.ValueSizeConstraint(1, 1), C_.ValueSizeConstraint(3, 3)))
+    out.append(('SEQUENCE (SIZE (1 | 3)) OF INTEGER, narrowed by sizeSpec (1..2)', one_or_three.subtype(sizeSpec=C_.ValueSizeConstraint(1, 2)),
+                [(ints(0), False), (ints(1), True), (ints(2), False), (ints(3), False), (ints(4), False)]))
+
+    class LegacySized(univ.SequenceOf):
+        componentType = univ.Integer()
+        subtypeSpec = C_.ConstraintsUnion(C_.ValueSizeConstraint(1, 1), C_.ValueSizeConstraint(3, 3))
+        sizeSpec = C_.ValueSizeConstraint(2, 3)
+    out.append(('class SEQUENCE (SIZE (1 | 3)) OF INTEGER with sizeSpec (2..3)', LegacySized(),
+                [(ints(1), False), (ints(2), False), (ints(3), True), (ints(4), False)]))
+    two_or_four = univ.SetOf(componentType=univ.Integer()).subtype(
+        subtypeSpec=C_.ConstraintsUnion(C_.ValueSizeConstraint(2, 2), C_.ValueSizeConstraint(4, 4)))
+    out.append(('SET (SIZE (2 | 4)) OF INTEGER, narrowed by sizeSpec (1..3)', two_or_four.subtype(sizeSpec=C_.ValueSizeConstraint(1, 3)),
+                [(ints_set(1), False), (ints_set(2), True), (ints_set(3), False), (ints_set(4), False)]))
+    not_two = univ.SequenceOf(componentType=univ.Integer()).subtype(subtypeSpec=C_.ConstraintsExclusion(C_.ValueSizeConstraint(2, 2)))
+    out.append(('SEQUENCE (ALL EXCEPT SIZE (2)) OF INTEGER, narrowed by sizeSpec (1..3)', not_two.subtype(sizeSpec=C_.ValueSizeConstraint(1, 3)),
+                [(ints(0), False), (ints(1), True), (ints(2), False), (ints(3), True), (ints(4), False)]))
     small_bits = univ.BitString().subtype(subtypeSpec=constraint.ValueSizeConstraint(1, 64))
     out.append(('BIT STRING (SIZE 1..64), huge values', small_bits,
                 [(tlv(3, b'\x00' + b'\xa5' * 2500), False), (tlv(3, b'\x00' + b'\xa5' * 8), True), (tlv(3, b'\x00' + b'\xa5' * 9), False)]))
